@@ -81,6 +81,7 @@ class Evaluator:
         self.dim_checks = 0
         self.calls_inlined = 0
         self.touched = set()
+        self.signal_slices = []  # (function, node, index value, path facts) for every signal-level subscript in library code
         self.guard_log = []      # (function, test, exception, where) for every arm that raised under an undecided test
         from . import extapi
         self.ext = extapi
@@ -225,9 +226,14 @@ class Evaluator:
             return a
         if isinstance(a, Num) and isinstance(b, Num):
             kind = a.kind if a.kind == b.kind else "number"
-            return Num(sp.Piecewise((a.expr, cond), (b.expr, True)), kind=kind,
-                       shape=a.shape if a.shape == b.shape else None,
-                       axes=a.axes if a.shape == b.shape else None)
+            shape, axes = None, None
+            if a.shape == b.shape:
+                shape, axes = a.shape, a.axes
+            elif a.shape is not None and b.shape is not None and len(a.shape) == len(b.shape):
+                shape = tuple(x if x == y else sp.Piecewise((x, cond), (y, True)) for x, y in zip(a.shape, b.shape))
+            return Num(sp.Piecewise((a.expr, cond), (b.expr, True)), kind=kind, shape=shape, axes=axes,
+                       backend=a.backend if a.backend == b.backend else None,
+                       tag=a.tag if a.tag == b.tag else None, dtype=a.dtype if a.dtype is b.dtype else (a.dtype or b.dtype))
         if isinstance(a, DictV) and isinstance(b, DictV) and set(a.d) == set(b.d):
             return DictV({k: self.ite(cond, a.d[k], b.d[k]) for k in a.d})
         if isinstance(a, TupleV) and isinstance(b, TupleV) and len(a.items) == len(b.items):
@@ -1105,6 +1111,8 @@ class Evaluator:
             m = obj.cls.find_method("__getitem__")
             if m is None:
                 raise Raised("TypeError", node, "object is not subscriptable")
+            if obj.cls.is_subclass_of("Signal") and fr is not None and fr.fi is not None:
+                self.signal_slices.append((fr.fi, node, idx, list(fr.facts)))
             return self.call(m, [idx], {}, self_val=obj, depth=fr.depth + 1)
         if isinstance(obj, ExtV):
             return self.ext.ext_getitem(self, obj, idx, fr, node)
